@@ -43,3 +43,35 @@ Proof. vm_compute. reflexivity. Qed.
 Example ex_history : flac_wf (fold_left flac_step
   [OpSave ex_new None; OpDelete; OpSave ex_old (Some (cb_const 0)); OpSave ex_new (Some cb_keep); OpDelete; OpDelete] ex_file) = true.
 Proof. vm_compute. reflexivity. Qed.
+
+(* deleteid3: prefix and an ID3v1 trailer go away, the blocks and the audio stay *)
+Definition ex_file_v1 : list Z :=
+  flac_build ex_id3 [(0, ex_streaminfo); (2, [65; 66; 67; 68; 9]); (1, zeros 10)] (ex_audio ++ zeros 130 ++ [84; 65; 71] ++ zeros 125).
+Example ex_deleteid3 : flac_wf ex_file_v1 = true /\
+  match flac_save ex_file_v1 ex_new (mkOpts None true) with
+  | Ok f' => match flac_parse f' with
+             | Ok s' => (fprefix s', map bcode (fblocks s'), zlen (faudio s'))
+             | Raise _ => ([], [], -1) end
+  | Raise _ => ([], [], -2) end = ([], [0; 2; 4; 1], 136).
+Proof. vm_compute. split; reflexivity. Qed.
+
+(* deleteid3 on a file with fewer than 128 bytes of audio: the ID3v1 test looks at the last 128 bytes of the FILE, which
+   then lie in the metadata region; a value with "TAG" at that spot gets the comment block cut off (real behaviour of
+   FLAC.save(deleteid3=True), reproduced on /repo: the 206-byte result is truncated to 78 bytes and no longer loads) *)
+Definition ex_short : list Z := flac_build None [(0, ex_streaminfo)] (ex_audio ++ zeros 4).
+Definition ex_tagvalue : vc := mkVC [] [([116; 105; 116; 108; 101], [84; 65; 71] ++ repeat 120 111)].
+Example ex_deleteid3_short_refuted :
+  flac_wf ex_short = true /\ vc_valid ex_tagvalue = true /\
+  (zlen (get [] (flac_save ex_short ex_tagvalue (mkOpts (Some (cb_const 0)) false))) = 192 /\
+   flac_wf (get [] (flac_save ex_short ex_tagvalue (mkOpts (Some (cb_const 0)) false))) = true) /\
+  (is_ok (flac_save ex_short ex_tagvalue (mkOpts (Some (cb_const 0)) true)) = true /\
+   zlen (get [] (flac_save ex_short ex_tagvalue (mkOpts (Some (cb_const 0)) true))) = 64 /\
+   flac_wf (get [] (flac_save ex_short ex_tagvalue (mkOpts (Some (cb_const 0)) true))) = false).
+Proof. vm_compute. repeat split; reflexivity. Qed.
+Lemma deleteid3_short_refuted : exists f t o f', flac_wf f = true /\ vc_valid t = true /\ o_deleteid3 o = true /\
+  flac_save f t o = Ok f' /\ flac_wf f' = false /\ flac_load f' = Raise EMutagen.
+Proof.
+  exists ex_short, ex_tagvalue, (mkOpts (Some (cb_const 0)) true),
+         (get [] (flac_save ex_short ex_tagvalue (mkOpts (Some (cb_const 0)) true))).
+  vm_compute. repeat split; reflexivity.
+Qed.
